@@ -83,6 +83,11 @@ CHECKS = {
             "Every set of 0..2 (quick) / 0..3 (thorough) items from {write A, write B (append), read, unknown tool, invalid args} x 4 argument-delivery variants x output_index {in order, reversed, missing} x duplicates {none, repeated done, shared call id} x {[DONE], none} x item ids {present, missing} x 7 tool_choice settings (3 for two-item scripts in quick) x both history modes, plus an endless-call script: request k+1 must answer exactly the completed call ids once each in output order, each permitted call must run exactly once (append markers), a barred tool must leave only the denial pair and no file effect, <= 32 executions per run, every received request must be a valid streaming payload, invalid configurations must send nothing, and stateless inputs must extend.",
             "Script alphabet bounds; for two items sharing one call id only 'at most one execution / one answer for that id' is judged (which item survives is undefined); exact argument bytes are checked only through the markers and the superseded-delta probe.",
             "DESIGN.md §3 C16"),
+    "C17": ("H-inputs", "exploration",
+            "bounded exhaustive enumeration of outputs x ALL chunk compositions x preview limits x caps through the real foreground capture loop with a scripted reader; every (offset, max_bytes) page; pipe-mode tasks x cancel moments through the production router",
+            "Part 1: every output of <=3 (quick) / <=4 (thorough) symbols from {a, LF, 2-byte, 4-byte, 0xFF} in all 2^(n-1) chunk compositions x 7 preview limits x 5 artifact caps, plus 7 large outputs around the 8 KiB read size x 8 preview limits x 5 caps: stored bytes must be the byte prefix up to the cap, the artifact must be named by the sha256 of its bytes, bytes/truncated/total exact, preview a prefix within its limit. Part 2: 6 blobs x every (offset, max_bytes) and sequential pages of 1..6 bytes through artifact_fetch. Part 3: 11 pipe-mode task commands x 3-5 cancel moments through POST /tasks: spawn first, running at most once, exactly one terminal status last, cancel request before cancellation, 0..n-1 numbering, byte-exact stored stdout, consecutive delta ranges.",
+            "PTY tasks excluded (no PTY in this sandbox); task cancel moments are wall-clock points (judged by the schedule-independent lifecycle grammar only), the cancel-at-every-hook-point gating of the design is not built; the task pump is exercised through real processes, not a scripted reader.",
+            "DESIGN.md §3 C17"),
     "C19": ("P", "exploration",
             "full product of secret-supply configurations x run outcomes, one subprocess with a cleared environment per configuration, through the production router against the scripted provider; canary search over every persisted byte, response and process output",
             "12 secret sources (three env variables incl. the endpoint-substring selected ones, inline api_key in the global / RIP_CONFIG / project / parent-project layer, {env: NAME} indirection, secret header, header + key, malformed header value / name) x 5 outcomes (success with a tool call, HTTP 401 echoing the request body, transport error, HTTP 500, tool failure) x request dump (thorough: on/off) x per-request overrides (thorough); the engine is built with OpenResponsesConfig::from_env() as serve does; the canary (raw, base64, percent-encoded) must be absent from every file under the data dir and workspace .rip/, /config/doctor, the session frames, error responses and stdout/stderr; the provider must have received it (vacuity guard); doctor must report presence and source.",
